@@ -135,7 +135,8 @@ def prefixed_total(k: int, s: str) -> bool:
 
 
 # ---- (c) pipeline ---------------------------------------------------------------------------------------------------------------
-ALPHABET = ["", " ", "\n", '"', "{{ x }}", "$user_message", "user ", "bot ", "  ", "#", ":", "a", "execute f", "{% if %}", "...", "\\", "if $y", "\n  "]
+ALPHABET = ["", " ", "\n", '"', "{{ x }}", "$user_message", "user ", "bot ", "  ", "#", ":", "a", "execute f", "{% if %}", "...", "\\", "if $y", "\n  ",
+            "do x", "label a", "goto a", "break", "else", "stop", "define user u", "$z = 1/0", "when "]
 TEMPLATES = ["{{ config }}", "{{ 7*7 }}", "$user_message", "{% for a in b %}", "$last_user_message"]
 
 COLANG_PLAIN = '''
@@ -162,7 +163,11 @@ define flow greeting
 define bot say name
   "Your name is {{ name }}"
 '''
-if MODE == "single":
+if MODE == "multistep":
+    APP, LLM = rails.build(COLANG_PLAIN, "enable_multi_step_generation: True\n")
+    GOOD = ["  ask joke", "bot tell joke", '  "A joke"']
+    USER = "tell me a joke"
+elif MODE == "single":
     APP, LLM = rails.build(COLANG_PLAIN, "rails:\n  dialog:\n    single_call:\n      enabled: True\n")
     GOOD = ['  ask joke\nbot tell joke\n  "A joke"']
     USER = "tell me a joke"
@@ -174,6 +179,20 @@ else:
     APP, LLM = rails.build(COLANG_PLAIN, "")
     GOOD = ["  ask joke", "  bot tell joke", '  "A joke"']
     USER = "tell me a joke"
+
+
+EVAL_ERR = ALPHABET.index("$z = 1/0")
+
+
+def _in_known_region(k0, k1, k2):
+    """Known finding C17-multistep-eval-error: in multi-step generation a generated statement whose expression raises when it is evaluated
+    (here the token `$z = 1/0`) makes generate raise. Completions containing that token at the next-step call are excluded from hostile_turn
+    and checked by hostile_known_region instead."""
+    return MODE == "multistep" and POS == 1 and (k0 == EVAL_ERR or k1 == EVAL_ERR or k2 == EVAL_ERR)
+
+
+def region_multistep_eval_error(slice_, a):
+    return slice_.get("mode") == "multistep" and int(slice_.get("pos", 0)) == 1 and EVAL_ERR in (a["k0"], a["k1"], a["k2"])
 
 
 def _well_formed(r):
@@ -192,8 +211,24 @@ def hostile_turn(k0: int, k1: int, k2: int) -> bool:
     generate completes with a well-formed assistant (or rail-exception) message and never raises.
     pre: 0 <= k0 < len(ALPHABET) and 0 <= k1 < len(ALPHABET) and 0 <= k2 < len(ALPHABET)
     pre: (not FIX2 or k2 == 0) and (FIRST is None or k0 == int(FIRST))
+    pre: not _in_known_region(k0, k1, k2)
     post: _
     """
+    return _hostile(k0, k1, k2)
+
+
+def hostile_known_region(k0: int, k1: int, k2: int) -> bool:
+    """
+    The same claim inside the region of the recorded finding (a generated statement whose expression raises at evaluation time): expected to be refuted,
+    and every counterexample must lie in the recorded region.
+    pre: 0 <= k0 < len(ALPHABET) and 0 <= k1 < len(ALPHABET) and 0 <= k2 < len(ALPHABET)
+    pre: (FIRST is None or k0 == int(FIRST)) and _in_known_region(k0, k1, k2)
+    post: _
+    """
+    return _hostile(k0, k1, k2)
+
+
+def _hostile(k0, k1, k2):
     global LAST_INFO
     stubs.reset()
     rails.reset_app(APP)
@@ -264,15 +299,15 @@ def hostile_twin(k0: int, k1: int, k2: int) -> bool:
     return reply.get("content") == "I'm not sure what to say."
 
 
-_POS = {"plain": 3, "single": 1, "value": 2}
+_POS = {"plain": 3, "single": 1, "value": 2, "multistep": 3}
 SPEC = {
     "property": "C17",
     "functions": FUNCTIONS,
     "bounds": "(a) every string of up to 4 code points (any Unicode) through 13 post-processing helpers / output parsers; the 5 completion prefixes followed by any string of up to 3 code points. "
-              "(c) Colang 1.0 pipeline: the completion of one LLM call of the turn (user intent / next step / bot message; the single call of single_call mode; the value of `$x = ...`) is any "
-              "concatenation of 2 (thorough 3) tokens of an 18-token hostile alphabet (empty, whitespace, newlines, quotes, jinja and variable syntax, Colang keywords, comment, colon, backslash); "
+              "(c) Colang 1.0 pipeline: the completion of one LLM call of the turn (user intent / next step / bot message; the single call of single_call mode; the value of `$x = ...`; the next step(s) of multi-step generation, which become a dynamic flow) is any "
+              "concatenation of 2 (thorough 3) tokens of an 27-token hostile alphabet (empty, whitespace, newlines, quotes, jinja and variable syntax, Colang keywords, comment, colon, backslash); "
               "5 template texts x 3 completion forms for literalness.",
-    "outside": "Colang 2.x LLM flows (`import llm`: timers and polling actions of the library are not driven by this harness), multi-step dynamic flow generation beyond what the three "
+    "outside": "multi-step completions containing a statement whose expression raises at evaluation time (recorded known finding, re-found on every run); Colang 2.x LLM flows (`import llm`: timers and polling actions of the library are not driven by this harness), multi-step dynamic flow generation beyond what the three "
                "Colang 1.0 modes reach, completions longer than 3 alphabet tokens / 4 code points, very long outputs. In (c) the text is concrete on each path: the solver enumerates token indices.",
     "assumptions": ["FakeLLM / StubVec / VLoop as in C01"],
     "explanation": "Oracle: (a) no exception, documented result types, result never longer than the input / a part of it; (c) generate returns {'role': 'assistant', 'content': str} or a rail exception and never raises; "
@@ -281,9 +316,12 @@ SPEC = {
         {"fn": "helpers_total", "slices": [{"part": 0}, {"part": 1}], "tcond": 900, "tpath": 60, "bound": "len <= 4",
          "smoke": [{"slice": {}, "args": dict(s='"\n# ')}, {"slice": {}, "args": dict(s="")}, {"slice": {}, "args": dict(s='a"')}]},
         {"fn": "prefixed_total", "slices": [{}], "tcond": 900, "tpath": 60, "bound": "5 prefixes + len <= 3"},
-        {"fn": "hostile_turn", "tiers": ("quick",), "slices": [{"mode": m, "pos": p, "fix2": 1} for m in ("plain", "single", "value") for p in range(_POS[m])], "tcond": 900, "tpath": 60, "bound": "2 tokens (third fixed to empty)",
+        {"fn": "hostile_turn", "tiers": ("quick",), "slices": [{"mode": m, "pos": p, "fix2": 1} for m in ("plain", "single", "value", "multistep") for p in range(_POS[m])], "tcond": 900, "tpath": 60, "bound": "2 tokens (third fixed to empty)",
          "smoke": [{"slice": {"mode": "plain", "pos": 1}, "args": dict(k0=6, k1=2, k2=7)}, {"slice": {"mode": "value", "pos": 1}, "args": dict(k0=3, k1=4, k2=0)}]},
-        {"fn": "hostile_turn", "tiers": ("thorough",), "slices": [{"mode": m, "pos": p, "first": f} for m in ("plain", "single", "value") for p in range(_POS[m]) for f in range(18)], "tcond": 3000, "tpath": 60, "bound": "3 tokens, partitioned on the first"},
+        {"fn": "hostile_turn", "tiers": ("thorough",), "slices": [{"mode": m, "pos": p, "first": f} for m in ("plain", "single", "value", "multistep") for p in range(_POS[m]) for f in range(len(ALPHABET)) if not (m == "multistep" and p == 1 and f == EVAL_ERR)], "tcond": 3000, "tpath": 60, "bound": "3 tokens, partitioned on the first"},
+        {"fn": "hostile_turn", "tiers": ("quick", "thorough"), "slices": [{"mode": "multistep", "pos": 1, "first": f} for f in (6, 7, 12, 16, 18, 19, 20, 21, 22, 23, 24, 26)], "tcond": 1800, "tpath": 60,
+         "bound": "multi-step generation: 3 tokens with the first one a Colang statement token"},
+        {"fn": "hostile_known_region", "expect": "known_or_confirmed", "slices": [{"mode": "multistep", "pos": 1, "first": 7}], "tcond": 600, "tpath": 60, "bound": "recorded finding re-found"},
         {"fn": "literal_templates", "slices": [{"mode": "plain"}, {"mode": "single"}], "tcond": 900, "tpath": 60, "bound": "5 templates x 3 forms"},
         {"fn": "hostile_twin", "expect": "counterexample", "slices": [{"mode": "plain"}], "tcond": 600, "tpath": 60, "bound": "twin"},
     ],
